@@ -80,3 +80,12 @@ Proof. exact literal_step. Qed.
 Theorem C09_continuation_at_end : forall c, (c =? 92)%N = false -> css_unescape [c; 92; 10]%N true = [c].
 Proof. exact continuation_at_end_lf. Qed.
 Print Assumptions C09_continuation_at_end.
+
+(* UNBOUNDED: any number of line continuations (backslash + LF, FF or CR LF) in front of y contribute nothing; a quoted value made
+   of continuations only is the empty value - the unbounded form of the directed battery `empty_values` of the C01 check
+   ([a^="\<CR><LF>"] designates nothing because its value IS the empty string). *)
+Theorem C09_only_continuations : forall l y, Forall cont l -> css_unescape (concat l ++ y) true = css_unescape y true.
+Proof. exact only_continuations_is_empty. Qed.
+Theorem C09_continuations_only_empty : forall l, Forall cont l -> css_unescape (concat l) true = [].
+Proof. exact continuations_only. Qed.
+Print Assumptions C09_continuations_only_empty.
